@@ -19,7 +19,7 @@ run_demo() {
   local ok=0
   for d in $DEMOS; do
     case $d in
-      tests/*.rs) n=$(basename $d .rs); cargo test --offline --test $n >> "$LOG" 2>&1 || ok=1 ;;
+      tests/*.rs) n=$(basename $d .rs); cargo test --offline --test $n ${SEED_FEATURES:+--features $SEED_FEATURES} >> "$LOG" 2>&1 || ok=1 ;;
       examples/*.rs) n=$(basename $d .rs); cargo run --offline --example $n >> "$LOG" 2>&1 || ok=1 ;;
     esac
   done
